@@ -340,9 +340,10 @@ Record hdb := {
   h_dup : cstate wop }.                  (* Column::HistoricalDuplicateColumn(c): key ++ be64 height -> reverse op *)
 Definition hdb_empty : hdb := {| h_main := []; h_hist := []; h_dup := [] |}.
 
-Definition be64 (h : N) : key :=
-  [ (h / 72057594037927936) mod 256; (h / 281474976710656) mod 256; (h / 1099511627776) mod 256;
-    (h / 4294967296) mod 256; (h / 16777216) mod 256; (h / 65536) mod 256; (h / 256) mod 256; h mod 256 ].
+(* u64::to_be_bytes *)
+Fixpoint be (n : nat) (h : N) : key :=
+  match n with O => [] | S n' => be n' (h / 256) ++ [h mod 256] end.
+Definition be64 (h : N) : key := be 8 h.
 Definition height_key (k : key) (h : N) : key := k ++ be64 h.
 
 (* the merge of a ChangesList (commit_changes): column by column, a later set wins on a key.
